@@ -1,4 +1,5 @@
 """C10 — replica swaps use the exact Metropolis probability and swap only configurations."""
+from checks import pure_fns
 LEAN_TARGETS = ["QmcProps.C10", "drv_c10"]
 BINS = ["c10"]
 
@@ -14,6 +15,7 @@ THEOREMS = [
     "accept_grid",
     "unequal_cutoffs_break_ratio",
     "swap_pair_spec",
+    "swapGraphs_cutoffs",
     "swap_exchanges_only_config",
     "equalisation_keeps_ops",
     "cutoffs_equal_after_step",
@@ -44,15 +46,16 @@ RULE = ("ising/generic: ladders of 0..8 real replicas (QmcIsingGraph / Qmc, 2-4 
         "by bisection of the script word, unwrapped-container and rayon re-runs on the same words. pairs: can_swap_graphs / "
         "ham_eq / relative_weight called directly on equal, sign-flipped, other-graph, other-magnitude pairs (Ising) and "
         "equal / perturbed interaction lists (generic, incl. the 0 and infinity branches). mismatch: ladders whose graphs "
-        "differ in edge count must be refused (regression for F14). Non-trivial = at least one rejected or evaluated decision "
+        "differ in edge count must be refused (regression for F14). grow: ladders grown BETWEEN tempering steps (start from 0/1/2 replicas, then add 1-2, step 1-2 times serial or rayon, ... up to 8; Ising with one Hamiltonian and one beta (every ratio exactly 1), one Hamiltonian and a beta ladder, Hamiltonian ladders; generic with equal / different beta); the model replays the recorded call history (a/s/p) to know the ham_eq caches; oracle: every neighbour pair of the current ladder gets exactly one decision per step, ratio-1 pairs are always exchanged. pairs also: every matrix element of QmcIsingGraph::hamiltonian (all bonds x all in/out patterns) and the public swap_graphs on samplers with unequal cutoffs. Non-trivial = at least one rejected or evaluated decision "
         "(steps) / both strings non-empty (pairs); distinct = distinct full case text.")
 
 
 def main(ck):
+    pure_fns.run(ck)   # source->Lean translation of pure functions, re-proved equal to the hand model
     if ck.lake_build(LEAN_TARGETS):
         ck.audit("QmcProps.C10", ["Qmc.C10." + t for t in THEOREMS])
     if ck.cargo_build(BINS):
-        for mode in ["ising", "generic", "pairs", "mismatch"]:
+        for mode in ["ising", "generic", "pairs", "mismatch", "grow"]:
             cases = ck.harness("c10", [mode])
             ck.correspond(mode, "drv_c10", cases)
         ck.extra_trusted.append("Spy delegation wrapper in harness/src/bin/c10.rs (each case is re-run on an unwrapped container and must end in the same state)")
